@@ -22,14 +22,14 @@ FORBIDDEN = [
     r"\bthread_local\b", r"\barch::", r"\bsimd::", r"\bCell\b", r"\bRefCell\b", r"\bUnsafeCell\b", r"\bRc\b", r"\bArc\b",
     r"\bMutex\b", r"\bRwLock\b", r"\bOnceCell\b", r"\bOnceLock\b", r"\bLazyLock\b", r"\bLazyCell\b", r"\bInstant\b",
     r"\bSystemTime\b", r"\balloc::alloc\b", r"\balloc::dealloc\b", r"\balloc::realloc\b", r"\bGlobalAlloc\b",
-    r"\bManuallyDrop\b", r"\bNonNull\b", r"\bBox::<.*>::(leak|from_raw|into_raw)", r"\bVec::<.*>::(from_raw_parts|set_len|as_mut_ptr|as_ptr|leak)",
+    r"\bManuallyDrop\b", r"\bNonNull\b", r"\bBox(::<.*>)?::(leak|from_raw|into_raw)", r"\bVec(::<.*>)?::(from_raw_parts|set_len|as_mut_ptr|as_ptr|leak)",
     r"\bslice::from_raw_parts", r"\bget_unchecked", r"\bunchecked\b", r"\bas_ptr\b", r"\bas_mut_ptr\b", r"\bbacktrace::", r"\bLocation\b",
 ]
 FORBIDDEN_RE = re.compile("|".join(FORBIDDEN))
 
 MAY_PANIC = [
-    (r"Result::<.*>::(unwrap|expect|unwrap_err|expect_err)$", "unwrap"),
-    (r"Option::<.*>::(unwrap|expect)$", "unwrap"),
+    (r"Result(::<.*>)?::(unwrap|expect|unwrap_err|expect_err)$", "unwrap"),
+    (r"Option(::<.*>)?::(unwrap|expect)$", "unwrap"),
     (r"slice::index::<impl (std|core)::ops::Index(Mut)?<.*> for \[[^\]]*\]>::index(_mut)?$", "slice-index"),
     (r"ops::Index(Mut)?<.*>>::index(_mut)?$", "index"),
     (r"ops::Index(Mut)?::index(_mut)?$", "index"),
@@ -41,15 +41,15 @@ MAY_PANIC = [
     (r"iter::Iterator::(step_by)$", "step_by"),
     (r"iter::(traits::)?(accum::)?(Sum|Product)(<.*>)?.*(usize|u\d+|i\d+|isize)", "int-sum"),
     (r"panicking::|::panic\w*$|assert_failed|unreachable_display|::unreachable$|::todo$|::unimplemented$", "panic"),
-    (r"Vec::<.*>::(remove|insert|swap_remove|drain|split_off|truncate|dedup\w*|retain\w*|splice)$", "vec-arg"),
-    (r"VecDeque::<.*>::(remove|insert|swap|range|drain|split_off)$", "vecdeque-arg"),
+    (r"Vec(::<.*>)?::(remove|insert|swap_remove|drain|split_off|truncate|dedup\w*|retain\w*|splice)$", "vec-arg"),
+    (r"VecDeque(::<.*>)?::(remove|insert|swap|range|drain|split_off)$", "vecdeque-arg"),
     (r"str::.*(index|split_at)|String::<?.*>?::(remove|insert|drain|split_off|truncate)", "str-arg"),
     (r"char::from_digit|from_u32_unchecked|RangeInclusive|Duration", "misc"),
 ]
 MAY_PANIC_RE = [(re.compile(p), n) for p, n in MAY_PANIC]
 
 ALLOCATES = [
-    r"\bvec::from_elem\b", r"\bVec::<.*>::", r"\bvec::Vec\b", r"\bboxed::Box\b", r"\bBox::<.*>::new\b", r"\bexchange_malloc\b",
+    r"\bvec::from_elem\b", r"\bVec(::<.*>)?::", r"\bvec::Vec\b", r"\bboxed::Box\b", r"\bBox(::<.*>)?::new\b", r"\bexchange_malloc\b",
     r"<impl \[[^\]]*\]>::(to_vec|into_vec|concat|join|sort|sort_by|sort_by_key|sort_by_cached_key|repeat)$", r"\bstring::String\b", r"\bString::", r"\bToString::to_string\b",
     r"\bfmt::format\b", r"\bVecDeque\b", r"\bBTreeMap\b", r"\bBTreeSet\b", r"\bBinaryHeap\b", r"\bLinkedList\b",
     r"\bIterator::collect\b", r"\bFromIterator\b", r"\bExtend\b", r"\bToOwned::to_owned\b", r"\bborrow::Cow\b",
@@ -59,7 +59,7 @@ ALLOCATES = [
 ]
 ALLOCATES_RE = re.compile("|".join(ALLOCATES))
 # allocating callees known not to panic for any argument (capacity overflow / OOM aside)
-ALLOC_NOPANIC_RE = re.compile(r"\bvec::from_elem\b|Vec::<.*>::(into_boxed_slice|new|push|len|is_empty|clear|iter|iter_mut|as_slice|as_mut_slice|pop|first|last|get|get_mut|extend_from_slice|with_capacity)$|<impl \[[^\]]*\]>::(to_vec|into_vec)$|<std::boxed::Box<.*> as std::clone::Clone>::clone|<std::vec::Vec<.*> as std::clone::Clone>::clone|\bfmt::format\b|\bToString::to_string\b|\bIterator::collect\b|\bBox::<.*>::new\b|<std::boxed::Box<.*> as (std|core)::convert::From<.*>>::from")
+ALLOC_NOPANIC_RE = re.compile(r"\bvec::from_elem\b|Vec(::<.*>)?::(into_boxed_slice|new|push|len|is_empty|clear|iter|iter_mut|as_slice|as_mut_slice|pop|first|last|get|get_mut|extend_from_slice|with_capacity)$|<impl \[[^\]]*\]>::(to_vec|into_vec)$|<std::boxed::Box<.*> as std::clone::Clone>::clone|<std::vec::Vec<.*> as std::clone::Clone>::clone|\bfmt::format\b|\bToString::to_string\b|\bIterator::collect\b|\bBox(::<.*>)?::new\b|<std::boxed::Box<.*> as (std|core)::convert::From<.*>>::from")
 
 PURE = [
     r"<impl f64>::\w+$",  # inherent f64 methods (clamp excluded above)
@@ -71,8 +71,8 @@ PURE = [
     r"<.* as (std|core)::cmp::(PartialOrd|PartialEq|Ord|Eq)(<.*>)?>::(lt|le|gt|ge|eq|ne|partial_cmp|cmp|max|min)$",
     r"(std|core)::cmp::(max|min|max_by|min_by|max_by_key|min_by_key)$", r"cmp::Ordering::\w+$",
     r"str::traits::<impl (std|core)::cmp::PartialEq for str>::(eq|ne)$",
-    r"Option::<.*>::(is_some|is_none|is_some_and|is_none_or|map|map_or|map_or_else|unwrap_or|unwrap_or_default|unwrap_or_else|and|and_then|or|or_else|take|replace|as_ref|as_mut|copied|cloned|filter|ok_or|ok_or_else|zip|xor|get_or_insert|get_or_insert_with|insert|iter|iter_mut|flatten|inspect)$",
-    r"Result::<.*>::(is_ok|is_err|ok|err|map|map_err|map_or|map_or_else|and|and_then|or|or_else|unwrap_or|unwrap_or_default|unwrap_or_else|as_ref|as_mut|copied|cloned|iter)$",
+    r"Option(::<.*>)?::(is_some|is_none|is_some_and|is_none_or|map|map_or|map_or_else|unwrap_or|unwrap_or_default|unwrap_or_else|and|and_then|or|or_else|take|replace|as_ref|as_mut|copied|cloned|filter|ok_or|ok_or_else|zip|xor|get_or_insert|get_or_insert_with|insert|iter|iter_mut|flatten|inspect)$",
+    r"Result(::<.*>)?::(is_ok|is_err|ok|err|map|map_err|map_or|map_or_else|and|and_then|or|or_else|unwrap_or|unwrap_or_default|unwrap_or_else|as_ref|as_mut|copied|cloned|iter)$",
     r"ops::Try>::branch$|ops::FromResidual<.*>>::from_residual$|ops::Try>::from_output$",
     r"iter::IntoIterator>::into_iter$|iter::IntoIterator for .*>::into_iter$",
     r"iter::Iterator::(enumerate|zip|skip|take|map|filter|filter_map|copied|cloned|chain|rev|peekable|fuse|inspect|by_ref|take_while|skip_while|scan|flat_map|flatten|sum|product|fold|for_each|all|any|count|max_by|min_by|max_by_key|min_by_key|position|rposition|last|nth|find|find_map|reduce|try_fold|try_for_each|size_hint|eq|lt|le|gt|ge|is_sorted)$",
@@ -91,7 +91,7 @@ PURE = [
     r"(std|core)::ops::(Fn|FnMut|FnOnce)(<.*>)?::call(_mut|_once)?$",
     r"ops::(Deref|DerefMut)>::deref(_mut)?$|ops::(Deref|DerefMut)::deref(_mut)?$",
     r"ops::function::impls::<impl .*>::call(_mut|_once)?$",
-    r"ops::Range(Inclusive|To|From)?<.*>::(contains|is_empty|len|new|start|end)$",
+    r"ops::Range(Inclusive|To|From)?(<.*>)?::(contains|is_empty|len|new|start|end)$",
     r"hint::(black_box|must_use)$", r"marker::",
     r"f64::consts", r"num::<impl f64>::\w+$", r"num::FpCategory",
     r"(std|core)::borrow::(Borrow|BorrowMut)(<.*>)?::borrow(_mut)?$",
@@ -119,6 +119,31 @@ def strip_turbofish(n):
     return n
 
 
+def strip_all_turbofish(n):
+    """remove every `::<...>` generic-argument list (types mentioned only as arguments must not decide the family)"""
+    if not n:
+        return n
+    out = []
+    i = 0
+    while i < len(n):
+        if n.startswith("::<", i) and not n.startswith("::<impl ", i):
+            depth = 0
+            j = i + 2
+            while j < len(n):
+                if n[j] == "<":
+                    depth += 1
+                elif n[j] == ">":
+                    depth -= 1
+                    if depth == 0:
+                        break
+                j += 1
+            i = j + 1
+            continue
+        out.append(n[i])
+        i += 1
+    return "".join(out)
+
+
 def callee_name(c):
     return c.get("resolved_args") or c.get("resolved") or c.get("path_args") or c.get("path") or c.get("ty") or "?"
 
@@ -129,8 +154,8 @@ def classify(callee, crate="ta", local_traits=()):
         return ("unknown", "indirect call through " + str(callee.get("ty")))
     res_local = callee.get("resolved_local")
     krate = callee.get("resolved_krate") or callee.get("krate")
-    name = strip_turbofish(callee_name(callee))
-    generic_name = strip_turbofish(callee.get("path_args") or callee.get("path") or "")
+    name = strip_all_turbofish(callee_name(callee))
+    generic_name = strip_all_turbofish(callee.get("path_args") or callee.get("path") or "")
     if res_local or (callee.get("local") and not callee.get("trait")):
         return ("local", name)
     if callee.get("local") and callee.get("trait") and not callee.get("resolved"):
